@@ -37,6 +37,11 @@ type profile struct {
 	// jsonMangle > 0: in JSON mode that share of the form requests carries a body that does not
 	// decode (only for monitors without must-accept rules: the request is then refused)
 	jsonMangle int
+	// badQuery > 0: that share of the POST requests carries a query string that does not parse.
+	// In JSON mode the shipped body reader never looks at it; in form mode it makes the request
+	// fail, so form-mode worlds only get it when badQueryForm is set (safety-only monitors).
+	badQuery     int
+	badQueryForm bool
 }
 
 var goodPWs = []string{"Passw0rd!A", "Passw0rd!B", "Passw0rd!C", "Passw0rd!D", "Zq9#mmmmX", "N3w-Secret_pw"}
@@ -899,7 +904,24 @@ func genCase(t *rapid.T, p profile) Case {
 	c := Case{Cfg: cfg, Ops: genOps(t, p, e)}
 	decorateFaults(t, p, c.Ops)
 	decorateJSON(t, p, cfg, c.Ops)
+	decorateQuery(t, p, cfg, c.Ops)
 	return c
+}
+
+var junkQueries = []string{"utm=100%", "a=%zz", "a;b", "x=%", "%", "redir=%2", "q=%u00e9"}
+
+func decorateQuery(t *rapid.T, p profile, cfg harness.Config, ops []Op) {
+	if p.badQuery <= 0 || (!cfg.JSON && !p.badQueryForm) {
+		return
+	}
+	for i := range ops {
+		switch ops[i].K {
+		case "login", "otplogin", "register", "recstart", "recend", "totpvalidate", "smsvalidate", "logout", "smsresend":
+			if chance(t, "badquery", p.badQuery) {
+				ops[i].RQ = pick(t, "junkquery", junkQueries...)
+			}
+		}
+	}
 }
 
 // decorateJSON: in JSON mode a few requests carry a body that does not decode into
